@@ -241,6 +241,10 @@ class Ctx:
         from .models_io import logging_getlogger_model
         reg.models["logging.getLogger"] = logging_getlogger_model
         reg.models["pyubx2.ubxreader.UBXReader.read"] = reader.read_result_model  # as seen by __next__
+        from . import configdb
+        configdb.install(reg)
+        reg.models["pyubx2.ubxhelpers.cfgname2key"] = configdb.model_cfgname2key  # symbolic keys only, else contract
+        reg.models["pyubx2.ubxhelpers.cfgkey2name"] = configdb.model_cfgkey2name
         try:
             import contracts.instance as instance
             instance.install(reg)
